@@ -97,8 +97,11 @@ package tabula
 //@   callsite FilterFragments(pi, fr, h) requires pi == pageNum && h == page.Height()
 //@ func (*Extractor) Headings
 //@   property C10, C11
-//@   flags callsites, releases
+//@   flags nosafety, releases
 //@   callsite FilterFragments(pi, fr, h) requires pi == pageNum && h == page.Height()
+// page-level metadata refers to the true source page: every heading of a page is stamped with that page's index
+//@   loop 1:
+//@     step stamped_with_the_source_page: result.Headings[$i - 1].PageIndex == pageNum
 //@ func (*Extractor) Lists
 //@   property C10, C11
 //@   flags callsites, releases
